@@ -22,7 +22,11 @@ func drawC12Script(t *Tape, snap bool) []Op {
 		case 0:
 			ops = append(ops, Op{Kind: "next"})
 		case 1:
-			ops = append(ops, Op{Kind: "response", Arg: []string{"cur", "cur", "cur", "prev", "unknown", "last"}[t.Draw(6)]})
+			op := Op{Kind: "response", Arg: []string{"cur", "cur", "cur", "prev", "unknown", "last"}[t.Draw(6)]}
+			if t.Chance(1, 4) {
+				op.Hdr = map[string]string{"__bad-mode-when-illegal": "1"}
+			}
+			ops = append(ops, op)
 		case 2:
 			ops = append(ops, Op{Kind: "error", Arg: []string{"cur", "cur", "prev", "unknown", "last"}[t.Draw(5)]})
 		case 3:
@@ -199,6 +203,13 @@ func c12Judge(r *Run, w *World, a *Actor, snap, operatorRestore bool) {
 			} else if id != curID || curID == "" {
 				r.Check(refusal(c, 400), "C12.wrong-id", "%s: %s for id %q (in flight: %q, state %s) answered %d %s, expected 400", who, c.Tag, id, curID, names[state], c.Status, summarize(c.Body))
 			} else {
+				// the id is the right one for as long as its invocation is in flight (the caller has not been answered):
+				// the call is illegal in the current state, not a wrong id
+				for _, inv := range w.Invokes {
+					if inv.ReqID == id && c.Done && c.Err == nil && (!inv.Call.Done || inv.Call.EndStep > c.EndStep) {
+						r.Check(c.Status == 403, "C12.second-submission-status", "%s: %s for the id in flight, already answered (state %s), got %d %s, expected 403 (400 is for a wrong request id)", who, c.Tag, names[state], c.Status, summarize(c.Body))
+					}
+				}
 				r.Check(refusal(c, 400, 403), "C12.second-submission", "%s: %s for the already answered id in state %s answered %d %s, expected 400/403", who, c.Tag, names[state], c.Status, summarize(c.Body))
 			}
 		case "rt-initerror":
